@@ -379,7 +379,14 @@ pub fn hostile_doc(rng: &mut Rng, env: &WorkerEnv) -> (String, Vec<u8>) {
         31 => {
             // an unresolvable reference at the bottom of n nested groups, one good sibling
             // per level: every level's work-list retries its failing child
-            let n = *rng.pick(&[6usize, 12, 18, 24, 40, 70]);
+            let trailing = rng.below(4);
+            // the variant with a <var> after the failing child at every level is a known,
+            // unrepaired exponential case: the quick tier keeps it below the budget
+            let n = if trailing == 3 && env.tier == crate::core::Tier::Quick {
+                *rng.pick(&[4usize, 8, 12])
+            } else {
+                *rng.pick(&[6usize, 12, 18, 24, 40, 70])
+            };
             let kind = rng.below(3);
             let mut s = String::from("<svg>");
             for _ in 0..n {
@@ -390,11 +397,18 @@ pub fn hostile_doc(rng: &mut Rng, env: &WorkerEnv) -> (String, Vec<u8>) {
                 });
             }
             s.push_str("<rect xy=\"#nope|h\" wh=\"1\"/>");
-            for _ in 0..n {
+            for i in 0..n {
                 s.push_str(if kind == 2 { "</a>" } else { "</g>" });
+                // something that succeeds (and may register an id) after the failing child
+                match trailing {
+                    0 => {}
+                    1 => s.push_str("<!-- c -->"),
+                    2 => s.push_str(&format!("<rect id=\"x{i}\" wh=\"1\"/>")),
+                    _ => s.push_str(&format!("<var q{i}=\"{i}\"/><rect wh=\"1\"/>")),
+                }
             }
             s.push_str("</svg>");
-            ("nested-unresolvable".into(), s.into_bytes())
+            (if trailing == 3 { "nested-unresolvable-var" } else { "nested-unresolvable" }.into(), s.into_bytes())
         }
         28 => {
             let (dd, why) = docgen::failing_doc(rng);
